@@ -48,8 +48,15 @@ def install():
 
     def _start_worker(self):
         _counter[0] += 1
-        S.SCHED.spawn("handshake%d" % _counter[0], self.run)
+        self._vtask = S.SCHED.spawn("handshake%d" % _counter[0], self.run)
+        if S.SCHED is not None:
+            S.SCHED.last_handshake_task = self._vtask.name
+
+    def _worker_alive(self):
+        t = getattr(self, "_vtask", None)
+        return t is not None and t.state != "done"
     WANoiseProtocolHandshakeWorker.start = _start_worker
+    WANoiseProtocolHandshakeWorker.is_alive = _worker_alive
     netmod.AsyncoreConnectionDispatcher = FakeDispatcher
     netmod.SocketConnectionDispatcher = FakeDispatcher
     IQL.Lock = S.SLock
@@ -275,7 +282,11 @@ class Rig(object):
         return out
 
     def task_errors(self):
-        return [(t.name, t.exc) for t in self.sched.tasks if t.exc is not None]
+        """exceptions that ended a task; a handshake worker of an earlier, cut-off attempt is allowed to end with one
+        (it is woken up with an empty segment precisely so that it ends)"""
+        last = getattr(self.sched, "last_handshake_task", None)
+        return [(t.name, t.exc) for t in self.sched.tasks if t.exc is not None
+                and not (t.name.startswith("handshake") and t.name != last)]
 
     def close(self):
         try:
